@@ -101,8 +101,8 @@ def render_items(rng, walk, edges, style):
             return None
         return ["%s%s" % s for s in segs]
     if style == "edges":
-        # segments supplied for edges: only unambiguous on walks that never revisit a segment
-        if not eds or not simple(walk):
+        # segments supplied for edges: every edge is walked in its written direction (or backwards with -)
+        if not eds:
             return None
         return ["%s%s" % e for e in eds]
     if style == "alternating":
